@@ -1152,3 +1152,78 @@ Proof.
     + left. reflexivity.
     + discriminate.
 Qed.
+
+(* ------------------------------------------------------------------------------------------ *)
+(* name-only pruning refuted; Config::append                                                    *)
+(* ------------------------------------------------------------------------------------------ *)
+Lemma nameonly_pruning_refuted :
+  exists c rt cfg an dg,
+    cache_ok c rt /\ analyzed_covers rt rt an
+    /\ In dg (snd (lint c rt cfg an)) /\ spec_output rt cfg dg
+    /\ ~ In dg (snd (lint_nameonly c rt cfg an)).
+Proof.
+  exists (fst (lint [] ex_root_twin ex_cfg_twin [(1, 100); (3, 100)])).
+  exists ex_root_twin, ex_cfg_twin, [(1, 100)], (514, 514).
+  split; [|split; [|split; [|split]]].
+  - split.
+    + vm_compute. repeat constructor; cbn; intuition discriminate.
+    + intros k ds Hin. vm_compute in Hin.
+      destruct Hin as [H|[H|[]]]; injection H as Hk Hds; subst k ds; vm_compute; reflexivity.
+  - intros k _. reflexivity.
+  - vm_compute. repeat first [left; reflexivity | right].
+  - exists (3, 100), ex_o_c, 514.
+    split; [vm_compute; reflexivity|]. split; [vm_compute; reflexivity|].
+    split; [|split; reflexivity].
+    assert (W : wf_events (group_events (group_of ex_root_twin (3, 100)))).
+    { apply wf_events_b_sound. vm_compute. reflexivity. }
+    destruct (unused_exact (group_of ex_root_twin (3, 100)) W) as [HU _].
+    apply (proj1 (HU ex_o_c)).
+    vm_compute. repeat first [left; reflexivity | right].
+  - vm_compute. intros H.
+    repeat (destruct H as [H|H]; [discriminate H|]). exact H.
+Qed.
+
+Lemma cm_get_set : forall m l v l',
+  cm_get (cm_set m l v) l' = if l =? l' then Some v else cm_get m l'.
+Proof.
+  induction m as [|[k x] r IH]; intros l v l'.
+  - cbn [cm_set cm_get]. reflexivity.
+  - cbn [cm_set]. destruct (k =? l) eqn:E.
+    + apply N.eqb_eq in E. subst k. cbn [cm_get]. destruct (l =? l'); reflexivity.
+    + cbn [cm_get]. destruct (k =? l') eqn:E2.
+      * apply N.eqb_eq in E2. subst l'. rewrite N.eqb_sym in E. rewrite E. reflexivity.
+      * apply IH.
+Qed.
+
+Lemma cm_get_notin : forall m l, ~ In l (map fst m) -> cm_get m l = None.
+Proof.
+  induction m as [|[k x] r IH]; intros l H; [reflexivity|].
+  cbn [cm_get]. destruct (k =? l) eqn:E.
+  - apply N.eqb_eq in E. subst k. exfalso. apply H. left. reflexivity.
+  - apply IH. intros Hin. apply H. right. exact Hin.
+Qed.
+
+Lemma config_append_last_wins : forall other self l,
+  NoDup (map fst other) ->
+  cm_get (config_append self other) l =
+    match cm_get other l with Some v => Some v | None => cm_get self l end.
+Proof.
+  unfold config_append.
+  induction other as [|[k v] r IH]; intros self l ND; [reflexivity|].
+  cbn [fold_left fst snd map] in *. inversion ND as [|? ? Hnot ND']; subst.
+  rewrite (IH _ l ND'). cbn [cm_get]. rewrite cm_get_set.
+  destruct (k =? l) eqn:E.
+  - apply N.eqb_eq in E. subst k. rewrite (cm_get_notin r l Hnot). reflexivity.
+  - reflexivity.
+Qed.
+
+Lemma config_append_keepflag_refuted :
+  exists self other l,
+    NoDup (map fst other) /\
+    cm_get (config_append_keepflag self other) l <>
+      match cm_get other l with Some v => Some v | None => cm_get self l end.
+Proof.
+  exists [(1, true)], [(1, false)], 1. split.
+  - repeat constructor. cbn. tauto.
+  - vm_compute. discriminate.
+Qed.
